@@ -80,10 +80,12 @@ def trace_struct(sample, feature, order, multiindex=(), flags=None, nlist=1):
         Xs = [mk_input(f"X{i}" if nlist > 1 else "X", sample, feature, order=order, multiindex=multiindex, feature_tag=f"fit{i}" if nlist > 1 else "fit")
               for i in range(nlist)]
         if nlist > 1:
-            # list items share the sample coordinates
-            for x in Xs[1:]:
+            # list items share the sample labels; a later item may carry them in another order
+            for j, x in enumerate(Xs[1:]):
                 for d in sample:
-                    x._coords[d] = LCoord(d, Xs[0]._coords[d].cid, Xs[0]._ext[d], Xs[0]._coords[d].index_kind, Xs[0]._coords[d].levels)
+                    cid0 = Xs[0]._coords[d].cid
+                    cid = CoordId("sorted", cid0) if (flags.get("reordered") and j == 0) else cid0
+                    x._coords[d] = LCoord(d, cid, Xs[0]._ext[d], Xs[0]._coords[d].index_kind, Xs[0]._coords[d].levels)
                     x._ext[d] = Xs[0]._ext[d]
         X = Xs if nlist > 1 else Xs[0]
         X2 = p.fit_transform(X, tuple(sample))
@@ -118,6 +120,7 @@ def structures(tier):
     out.append(dict(sample=("t1",), feature=("a", "b"), order=("t1", "a", "b"), flags=dict(check_nans=True)))
     out.append(dict(sample=("t1",), feature=("a", "b"), order=("t1", "a", "b"), nlist=2))
     out.append(dict(sample=("t1", "t2"), feature=("a",), order=("a", "t1", "t2"), nlist=3))
+    out.append(dict(sample=("t1",), feature=("a", "b"), order=("t1", "a", "b"), nlist=2, flags=dict(reordered=True)))
     return out
 
 
@@ -181,6 +184,7 @@ def deductive(res, agg):
             agg.vc("Preprocessor.inverse_transform_scores", "scores come back with the sample dims plus mode", struct_vc(set(sc.dims) == set(sd) | {"mode"}, f"{sc.dims}"), cfg)
             agg.vc("Preprocessor.inverse_transform_scores", "scores carry the input's sample coordinates",
                    struct_vc(all(sc._coords[d].cid.same_labels(X0._coords[d].cid) or sc._coords[d].cid.base().kind == "kept" for d in sd), repr(sc)[:200]), cfg)
+            agg.vc(fn, "list items are combined by label, never by position", struct_vc(not [e for e in o["events"] if e[0] == "positional-join"], str([e for e in o["events"] if e[0] == "positional-join"][:1])), cfg)
             agg.vc(fn, "the user's input objects are not modified", struct_vc(not [e for e in o["events"] if e[0] == "mutate"], str(o["events"][:2])), cfg)
         if nret == 0:
             agg.vc(fn, "has-returning-path", struct_vc(False, "vacuity guard"), cfg)
@@ -222,7 +226,10 @@ def _build(c, rng):
     elif kind == "ds-different":
         X = xr.Dataset({"a": da, "b": da.isel({fd[-1]: 0}, drop=True) * 2 + 1}) if len(fd) > 1 else xr.Dataset({"a": da, "b": da * 3})
     elif kind == "list":
-        X = [da, (da.isel({fd[-1]: 0}, drop=True) - 1) if len(fd) > 1 else da * 3]
+        second = (da.isel({fd[-1]: 0}, drop=True) - 1) if len(fd) > 1 else da * 3
+        if c.get("reverse_second"):
+            second = second.isel({sd[0]: slice(None, None, -1)})
+        X = [da, second]
     return X, sd
 
 
@@ -321,6 +328,9 @@ def bounded_cases(tier, seed):
     for container in ("da", "list"):
         cases.append(dict(container=container, ns=1, nf=2, shuffle=True, kinds=["int"], level="model", center=True, std=False,
                           sample_name="obs", feature_name="gridcell", keep=True))
+    for level in ("preprocessor", "model"):
+        cases.append(dict(container="list", ns=1, nf=2, shuffle=False, kinds=["int"], level=level, center=True, std=False, reverse_second=True, keep=True))
+        cases.append(dict(container="list", ns=1, nf=1, shuffle=False, kinds=["string"], level=level, center=False, std=False, reverse_second=True, keep=True))
     for i, c in enumerate(cases):
         c["seed"] = int(seed) * 1000 + i
     if tier == "quick":
